@@ -802,6 +802,20 @@ def run_mem_key(ctx, sec, key, group, rng, routes_full=True):
         if typ is not None:
             ctx.count(f"type[{typ}]")
 
+        if not routes_full:
+            # extension space (thorough): assignment and update on a bare section dict
+            sd = dconfig.ConfigurationDict(sec)
+            _State.route = "assign"
+            c = attempt(lambda: sd.__setitem__(skey, fac()))
+            cur = judge_route(ctx, "assign", sec, key, skey, rname, value, typ, out, sd, c)
+            if out.kind == "ok" and cur is not _MISSING:
+                check_access(ctx, sd, sec, key, rng, cur, rname)
+                check_idempotent(ctx, sd, sec, key, typ, cur, rname)
+            sd = dconfig.ConfigurationDict(sec)
+            _State.route = "update"
+            c = attempt(lambda: sd.update({skey: fac()}))
+            judge_route(ctx, "update", sec, key, skey, rname, value, typ, out, sd, c)
+            continue
         # ---- route: item assignment
         if not unknown_section:
             cfg = dconfig.Configuration()
@@ -814,15 +828,6 @@ def run_mem_key(ctx, sec, key, group, rng, routes_full=True):
                 check_access(ctx, sd, sec, key, rng, cur, rname)
                 run_text_roundtrip(ctx, cfg, sec, key, typ, cur, rname)
                 check_idempotent(ctx, sd, sec, key, typ, cur, rname)
-        if not routes_full:
-            # extension space: assignment and update only
-            cfg = dconfig.Configuration()
-            _State.route = "update"
-            c = attempt(lambda: cfg[sec].update({skey: fac()}))
-            judge_route(ctx, "update", sec, key, skey, rname, value, typ, out,
-                        get_section(cfg, sec), c, prev=default_entry(sec, key))
-            continue
-
         # ---- route: section.update / Configuration.update / constructors
         if not unknown_section:
             cfg = dconfig.Configuration()
@@ -864,7 +869,12 @@ def run_mem_key(ctx, sec, key, group, rng, routes_full=True):
             if out.kind == "dc":
                 pass
             elif out.kind == "reject":
-                stored_any = bool(data) if data is not None else False
+                # the entry must not appear under any spelling (an unchanged default is fine)
+                lk = mt.lower_key(key)
+                hits = [k for k in (data or {}) if mt.lower_key(k) == lk]
+                dflt = default_entry(sec, key)
+                stored_any = any(dflt is _MISSING or not same_type_equal(data[k], dflt)
+                                 for k in hits)
                 if stored_any:
                     ctx.violation(
                         "section_assign",
